@@ -208,8 +208,8 @@ func relevantFacts(facts []*Term, goal *Term) []*Term {
 		}
 	}
 	type fi struct {
-		t    *Term
-		syms map[string]bool
+		t      *Term
+		syms   map[string]bool
 		q      bool
 		in     bool
 		ground bool
@@ -283,7 +283,7 @@ func relevantFacts(facts []*Term, goal *Term) []*Term {
 }
 
 func isTopicSymbol(s string) bool {
-	return strings.HasPrefix(s, "ghost.") || strings.HasPrefix(s, "op$")
+	return strings.HasPrefix(s, "ghost.") || strings.HasPrefix(s, "op$") || strings.HasPrefix(s, "app.") || strings.HasPrefix(s, "sorted") || strings.HasPrefix(s, "copied")
 }
 
 // scriptFiltered renders the obligation with relevance-filtered hypotheses.
@@ -313,6 +313,7 @@ func (o *Obligation) render(facts []*Term) string {
 }
 
 type Discharger struct {
+	Quick    bool // single solver, no filtered variant (Houdini probes)
 	WorkDir  string
 	TimeoutS int
 	Seed     int
@@ -324,7 +325,18 @@ func (d *Discharger) runOne(ctx context.Context, cfg SolverCfg, file string) (st
 	args := append(append([]string(nil), cfg.Args[1:]...), file)
 	cmd := exec.CommandContext(ctx, cfg.Args[0], args...)
 	out, _ := cmd.CombinedOutput()
-	first := strings.TrimSpace(strings.SplitN(string(out), "\n", 2)[0])
+	// the verdict is the first line that is a verdict (solvers may print warnings before it)
+	first := ""
+	for _, l := range strings.Split(string(out), "\n") {
+		l = strings.TrimSpace(l)
+		if l == "sat" || l == "unsat" || l == "unknown" || l == "timeout" {
+			first = l
+			break
+		}
+	}
+	if first == "" {
+		first = trunc(strings.TrimSpace(strings.SplitN(string(out), "\n", 2)[0]), 80)
+	}
 	return first, string(out)
 }
 
@@ -379,7 +391,7 @@ func (d *Discharger) solveFile(o *Obligation, fname string) {
 	try := func(timeout int, seed int) bool {
 		cfgs := solverConfigs(timeout, seed)
 		var jobs []job
-		if o.Canary {
+		if o.Canary || d.Quick {
 			jobs = []job{{cfgs[0], fname, false}}
 		} else {
 			for _, c := range cfgs {
